@@ -1,0 +1,69 @@
+//go:build verif
+
+package lintcmd
+
+import "honnef.co/go/tools/lintcmd/runner"
+
+// Exported wrappers around the unexported directive handling, for the
+// verification harness (property C10). Add-only; compiled only with
+// -tags verif.
+
+// VerifC10Diagnostic is the part of a diagnostic that filterIgnored reads or writes.
+type VerifC10Diagnostic struct {
+	runner.Diagnostic
+	Severity string
+}
+
+func verifC10Allowed(allowed []string) map[caseFoldedString]bool {
+	m := make(map[caseFoldedString]bool, len(allowed))
+	for _, a := range allowed {
+		m[makeCaseFoldedString(a)] = true
+	}
+	return m
+}
+
+func verifC10Export(ds []diagnostic) []VerifC10Diagnostic {
+	out := make([]VerifC10Diagnostic, len(ds))
+	for i, d := range ds {
+		out[i] = VerifC10Diagnostic{Diagnostic: d.Diagnostic, Severity: d.Severity.String()}
+	}
+	return out
+}
+
+// VerifC10Success calls success.
+func VerifC10Success(allowed []string, diags []runner.Diagnostic) []VerifC10Diagnostic {
+	return verifC10Export(success(verifC10Allowed(allowed), runner.ResultData{Diagnostics: diags}))
+}
+
+// VerifC10FilterIgnored calls filterIgnored on the given diagnostics
+// (after success if useSuccess is set) and directives.
+func VerifC10FilterIgnored(diags []runner.Diagnostic, dirs []runner.SerializedDirective, allowed []string, useSuccess bool) ([]VerifC10Diagnostic, error) {
+	al := verifC10Allowed(allowed)
+	res := runner.ResultData{Diagnostics: diags, Directives: dirs}
+	var ps []diagnostic
+	if useSuccess {
+		ps = success(al, res)
+	} else {
+		for _, d := range diags {
+			ps = append(ps, diagnostic{Diagnostic: d})
+		}
+	}
+	out, err := filterIgnored(ps, res, al)
+	return verifC10Export(out), err
+}
+
+// VerifC10Suppresses reports whether the single directive, as parsed by
+// parseDirectives, matches a diagnostic of the given category at file:line.
+func VerifC10Suppresses(dir runner.SerializedDirective, file string, line int, category string) bool {
+	igs, _ := parseDirectives([]runner.SerializedDirective{dir})
+	var d diagnostic
+	d.Position.Filename = file
+	d.Position.Line = line
+	d.Category = category
+	for _, ig := range igs {
+		if ig.match(d) {
+			return true
+		}
+	}
+	return false
+}
